@@ -163,8 +163,10 @@ Proof.
     rewrite <- He. apply in_map. apply filter_In. split; [exact Hm|]. apply (fnd_in ms' m m' Hm'). congruence.
 Qed.
 
-Lemma emp_down lo hi lo' hi' : size_sub lo hi lo' hi' = true -> (hi =? 0) = true -> 0 <= hi' -> (hi' =? 0) = true.
-Proof. unfold size_sub. intros H H0 Hn. apply andb_true_iff in H. destruct H as [_ H]. apply Z.leb_le in H. apply Z.eqb_eq in H0. apply Z.eqb_eq. lia. Qed.
+(* a sub-range of a range whose maximum is not positive has a maximum that is not positive (fix of
+   trans-negative-collection-size: the shortcut tests max <= 0, so it is inherited downwards) *)
+Lemma emp_down lo hi lo' hi' : size_sub lo hi lo' hi' = true -> (hi <=? 0) = true -> (hi' <=? 0) = true.
+Proof. unfold size_sub. intros H H0. apply andb_true_iff in H. destruct H as [_ H]. apply Z.leb_le in H, H0. apply Z.leb_le. lia. Qed.
 
 Section Coll.
   Variable rx : str -> str -> bool.
@@ -173,7 +175,7 @@ Section Coll.
 
   (* the induction hypothesis: transitivity for all strictly smaller triples *)
   Definition IHn (n : nat) : Prop :=
-    forall a b c, (tsize a + tsize b + tsize c < n)%nat -> gd a -> gd b -> gdr c ->
+    forall a b c, (tsize a + tsize b + tsize c < n)%nat -> gd a -> gd b -> gd c ->
                   asg a b = true -> asg b c = true -> asg a c = true.
 
   Ltac rsimpl H := cbn [LatticeUnfold.recv] in H.
@@ -197,51 +199,51 @@ Section Coll.
   Qed.
 
   Lemma core_array e' lo' hi' a c : IHn (tsize a + tsize (TArray e' lo' hi') + tsize c) ->
-    gd a -> gd (TArray e' lo' hi') -> gdr c -> rcv a = true ->
+    gd a -> gd (TArray e' lo' hi') -> gd c -> rcv a = true ->
     recv a (TArray e' lo' hi') = true -> recv (TArray e' lo' hi') c = true -> recv a c = true.
   Proof.
     intros IH Ha Hb Hc Ra Hab Hbc. pose proof (gd_array _ _ _ Hb) as Hge'.
     destruct c as [| | | | | | | | | | | | | | | | | |e'' lo'' hi''| |us gu lo'' hi''| | | | | | |]; rsimpl Hbc; try discriminate Hbc.
     - (* right: Array *)
-      destruct (gdr_array _ _ _ Hc) as [Hge'' Hhi'']. apply andb_true_iff in Hbc. destruct Hbc as [Hs2 Hbc].
+      pose proof (gd_array _ _ _ Hc) as Hge''. apply andb_true_iff in Hbc. destruct Hbc as [Hs2 Hbc].
       destruct a as [| | | | | | | | | | | | |ci vs|rxs| | |lo hi|e lo hi| |ts g lo hi| | | | | | |]; try discriminate; rsimpl Hab; try discriminate Hab.
       + destruct vs; discriminate.
       + destruct rxs; discriminate.
       + cbn [LatticeUnfold.recv]. eapply size_sub_trans; eassumption.
       + (* Array <- Array <- Array *) apply andb_true_iff in Hab. destruct Hab as [Hs1 Hab].
         cbn [LatticeUnfold.recv]. rewrite (size_sub_trans _ _ _ _ _ _ Hs1 Hs2). cbn [andb].
-        destruct (hi'' =? 0) eqn:E2; [reflexivity|]. cbn [orb] in Hbc |- *.
-        apply orb_true_iff in Hab. destruct Hab as [E1|Hab]; [rewrite (emp_down _ _ _ _ Hs2 E1 Hhi'') in E2; discriminate|].
+        destruct (hi'' <=? 0) eqn:E2; [reflexivity|]. cbn [orb] in Hbc |- *.
+        apply orb_true_iff in Hab. destruct Hab as [E1|Hab]; [rewrite (emp_down _ _ _ _ Hs2 E1) in E2; discriminate|].
         apply (IH e e' e''); try assumption; sz.
       + (* Tuple <- Array <- Array *) apply andb_true_iff in Hab. destruct Hab as [Hs1 Hab].
         cbn [LatticeUnfold.recv]. rewrite (size_sub_trans _ _ _ _ _ _ Hs1 Hs2). cbn [andb].
-        destruct (hi'' =? 0) eqn:E2; [reflexivity|]. cbn [orb] in Hbc |- *.
-        apply orb_true_iff in Hab. destruct Hab as [E1|Hab]; [rewrite (emp_down _ _ _ _ Hs2 E1 Hhi'') in E2; discriminate|].
+        destruct (hi'' <=? 0) eqn:E2; [reflexivity|]. cbn [orb] in Hbc |- *.
+        apply orb_true_iff in Hab. destruct Hab as [E1|Hab]; [rewrite (emp_down _ _ _ _ Hs2 E1) in E2; discriminate|].
         rewrite forallb_forall in Hab |- *. intros t Ht. pose proof (tsize_in _ _ Ht).
         apply (IH t e' e''); try assumption; [sz|exact (gd_tuple _ _ _ _ _ Ha Ht)|apply Hab; exact Ht].
     - (* right: Tuple *)
-      pose proof (gdr_tuple_hi _ _ _ _ Hc) as Hhi''. apply andb_true_iff in Hbc. destruct Hbc as [Hs2 Hbc].
-      assert (Hr : (hi'' =? 0) = false -> forall x, gd x -> (tsize x < tsize a)%nat -> asg x e' = true ->
+      apply andb_true_iff in Hbc. destruct Hbc as [Hs2 Hbc].
+      assert (Hr : (hi'' <=? 0) = false -> forall x, gd x -> (tsize x < tsize a)%nat -> asg x e' = true ->
                    (us = [] -> asg x TAny = true) /\ (forall u, In u us -> asg x u = true)).
       { intros E2 x Hgx Hsx Hxe. rewrite E2 in Hbc. cbn [orb] in Hbc. split.
-        - intros ->. cbv iota in Hbc. apply (IH x e' TAny); try assumption; [sz|apply gdr_any].
+        - intros ->. cbv iota in Hbc. apply (IH x e' TAny); try assumption; [sz|apply gd_any].
         - intros u Hu. destruct us as [|u0 us]; [destruct Hu|]. cbv iota in Hbc. rewrite forallb_forall in Hbc. pose proof (tsize_in _ _ Hu).
-          apply (IH x e' u); try assumption; [sz|exact (gdr_tuple _ _ _ _ _ Hc Hu)|apply Hbc; exact Hu]. }
+          apply (IH x e' u); try assumption; [sz|exact (gd_tuple _ _ _ _ _ Hc Hu)|apply Hbc; exact Hu]. }
       destruct a as [| | | | | | | | | | | | |ci vs|rxs| | |lo hi|e lo hi| |ts g lo hi| | | | | | |]; try discriminate; rsimpl Hab; try discriminate Hab.
       + destruct vs; discriminate.
       + destruct rxs; discriminate.
       + cbn [LatticeUnfold.recv]. eapply size_sub_trans; eassumption.
       + (* Array <- Array <- Tuple *) apply andb_true_iff in Hab. destruct Hab as [Hs1 Hab].
         cbn [LatticeUnfold.recv]. rewrite (size_sub_trans _ _ _ _ _ _ Hs1 Hs2). cbn [andb].
-        destruct (hi'' =? 0) eqn:E2; [reflexivity|]. cbn [orb].
-        apply orb_true_iff in Hab. destruct Hab as [E1|Hab]; [rewrite (emp_down _ _ _ _ Hs2 E1 Hhi'') in E2; discriminate|].
+        destruct (hi'' <=? 0) eqn:E2; [reflexivity|]. cbn [orb].
+        apply orb_true_iff in Hab. destruct Hab as [E1|Hab]; [rewrite (emp_down _ _ _ _ Hs2 E1) in E2; discriminate|].
         destruct (Hr eq_refl e (gd_array _ _ _ Ha) ltac:(sz) Hab) as [Hr1 Hr2].
         destruct us as [|u0 us]; [apply Hr1; reflexivity|]. apply forallb_forall. exact Hr2.
       + (* Tuple <- Array <- Tuple *) apply andb_true_iff in Hab. destruct Hab as [Hs1 Hab].
         cbn [LatticeUnfold.recv]. rewrite (size_sub_trans _ _ _ _ _ _ Hs1 Hs2). cbn [andb].
         destruct ts as [|t0 ts]; [reflexivity|]. remember (t0 :: ts) as tl eqn:Etl.
-        destruct (hi'' =? 0) eqn:E2; [reflexivity|]. cbn [orb].
-        apply orb_true_iff in Hab. destruct Hab as [E1|Hab]; [rewrite (emp_down _ _ _ _ Hs2 E1 Hhi'') in E2; discriminate|].
+        destruct (hi'' <=? 0) eqn:E2; [reflexivity|]. cbn [orb].
+        apply orb_true_iff in Hab. destruct Hab as [E1|Hab]; [rewrite (emp_down _ _ _ _ Hs2 E1) in E2; discriminate|].
         rewrite forallb_forall in Hab.
         assert (Hr' : forall t, In t tl -> (us = [] -> asg t TAny = true) /\ (forall u, In u us -> asg t u = true)).
         { intros t Ht. pose proof (tsize_in _ _ Ht). apply (Hr eq_refl t (gd_tuple _ _ _ _ _ Ha Ht)); [sz|apply Hab; exact Ht]. }
@@ -251,18 +253,18 @@ Section Coll.
   Qed.
 
   Lemma core_tuple os g' lo' hi' a c : IHn (tsize a + tsize (TTuple os g' lo' hi') + tsize c) ->
-    gd a -> gd (TTuple os g' lo' hi') -> gdr c -> rcv a = true ->
+    gd a -> gd (TTuple os g' lo' hi') -> gd c -> rcv a = true ->
     recv a (TTuple os g' lo' hi') = true -> recv (TTuple os g' lo' hi') c = true -> recv a c = true.
   Proof.
     intros IH Ha Hb Hc Ra Hab Hbc.
     (* the induction hypothesis through a middle slot *)
-    assert (HIH : forall x o z, (tsize x < tsize a)%nat -> gd x -> In o os -> (tsize z <= tsize c)%nat -> gdr z ->
+    assert (HIH : forall x o z, (tsize x < tsize a)%nat -> gd x -> In o os -> (tsize z <= tsize c)%nat -> gd z ->
                                 asg x o = true -> asg o z = true -> asg x z = true).
     { intros x o z Hsx Hgx Ho Hsz Hgz Hxo Hoz. pose proof (tsize_in _ _ Ho).
       apply (IH x o z); try assumption; [sz|exact (gd_tuple _ _ _ _ _ Hb Ho)]. }
     destruct c as [| | | | | | | | | | | | | | | | | |e'' lo'' hi''| |us gu lo'' hi''| | | | | | |]; rsimpl Hbc; try discriminate Hbc.
     - (* right: Array *)
-      destruct (gdr_array _ _ _ Hc) as [Hge'' Hhi'']. apply andb_true_iff in Hbc. destruct Hbc as [Hs2 Hbc].
+      pose proof (gd_array _ _ _ Hc) as Hge''. apply andb_true_iff in Hbc. destruct Hbc as [Hs2 Hbc].
       assert (Hsz'' : (tsize e'' <= tsize (TArray e'' lo'' hi''))%nat) by sz.
       destruct a as [| | | | | | | | | | | | |ci vs|rxs| | |lo hi|e lo hi| |ts g lo hi| | | | | | |]; try discriminate; rsimpl Hab; try discriminate Hab.
       + destruct vs; discriminate.
@@ -270,16 +272,16 @@ Section Coll.
       + cbn [LatticeUnfold.recv]. eapply size_sub_trans; eassumption.
       + (* Array <- Tuple <- Array *) apply andb_true_iff in Hab. destruct Hab as [Hs1 Hab].
         cbn [LatticeUnfold.recv]. rewrite (size_sub_trans _ _ _ _ _ _ Hs1 Hs2). cbn [andb].
-        destruct (hi'' =? 0) eqn:E2; [reflexivity|]. cbn [orb] in Hbc |- *.
-        apply orb_true_iff in Hab. destruct Hab as [E1|Hab]; [rewrite (emp_down _ _ _ _ Hs2 E1 Hhi'') in E2; discriminate|].
+        destruct (hi'' <=? 0) eqn:E2; [reflexivity|]. cbn [orb] in Hbc |- *.
+        apply orb_true_iff in Hab. destruct Hab as [E1|Hab]; [rewrite (emp_down _ _ _ _ Hs2 E1) in E2; discriminate|].
         destruct os as [|o0 os]; [apply asg_any_all; exact Hab|].
         rewrite forallb_forall in Hab, Hbc.
         exact (HIH e o0 e'' ltac:(sz) (gd_array _ _ _ Ha) (or_introl eq_refl) Hsz'' Hge'' (Hab _ (or_introl eq_refl)) (Hbc _ (or_introl eq_refl))).
       + (* Tuple <- Tuple <- Array *) apply andb_true_iff in Hab. destruct Hab as [Hs1 Hab].
         cbn [LatticeUnfold.recv]. rewrite (size_sub_trans _ _ _ _ _ _ Hs1 Hs2). cbn [andb].
-        destruct (hi'' =? 0) eqn:E2; [reflexivity|]. cbn [orb] in Hbc |- *.
+        destruct (hi'' <=? 0) eqn:E2; [reflexivity|]. cbn [orb] in Hbc |- *.
         destruct ts as [|t0 ts]; [reflexivity|]. remember (t0 :: ts) as tl eqn:Etl.
-        apply orb_true_iff in Hab. destruct Hab as [E1|Hab]; [rewrite (emp_down _ _ _ _ Hs2 E1 Hhi'') in E2; discriminate|].
+        apply orb_true_iff in Hab. destruct Hab as [E1|Hab]; [rewrite (emp_down _ _ _ _ Hs2 E1) in E2; discriminate|].
         apply forallb_forall. intros t Ht. pose proof (tsize_in _ _ Ht) as Hst.
         destruct os as [|o0 os].
         * apply asg_any_all. rewrite forallb_forall in Hab. apply Hab. exact Ht.
@@ -287,17 +289,17 @@ Section Coll.
           rewrite forallb_forall in Hbc.
           exact (HIH t o e'' ltac:(sz) (gd_tuple _ _ _ _ _ Ha Ht) Ho Hsz'' Hge'' Hto (Hbc _ Ho)).
     - (* right: Tuple *)
-      pose proof (gdr_tuple_hi _ _ _ _ Hc) as Hhi''. apply andb_true_iff in Hbc. destruct Hbc as [Hs2 Hbc].
-      assert (Hsu : forall u, u = TAny \/ In u us -> (tsize u <= tsize (TTuple us gu lo'' hi''))%nat /\ gdr u).
-      { intros u [->|Hu]; [split; [sz|apply gdr_any]|]. pose proof (tsize_in _ _ Hu). split; [sz|exact (gdr_tuple _ _ _ _ _ Hc Hu)]. }
+      apply andb_true_iff in Hbc. destruct Hbc as [Hs2 Hbc].
+      assert (Hsu : forall u, u = TAny \/ In u us -> (tsize u <= tsize (TTuple us gu lo'' hi''))%nat /\ gd u).
+      { intros u [->|Hu]; [split; [sz|apply gd_any]|]. pose proof (tsize_in _ _ Hu). split; [sz|exact (gd_tuple _ _ _ _ _ Hc Hu)]. }
       destruct a as [| | | | | | | | | | | | |ci vs|rxs| | |lo hi|e lo hi| |ts g lo hi| | | | | | |]; try discriminate; rsimpl Hab; try discriminate Hab.
       + destruct vs; discriminate.
       + destruct rxs; discriminate.
       + cbn [LatticeUnfold.recv]. eapply size_sub_trans; eassumption.
       + (* Array <- Tuple <- Tuple *) apply andb_true_iff in Hab. destruct Hab as [Hs1 Hab].
         cbn [LatticeUnfold.recv]. rewrite (size_sub_trans _ _ _ _ _ _ Hs1 Hs2). cbn [andb].
-        destruct (hi'' =? 0) eqn:E2; [reflexivity|]. cbn [orb].
-        apply orb_true_iff in Hab. destruct Hab as [E1|Hab]; [rewrite (emp_down _ _ _ _ Hs2 E1 Hhi'') in E2; discriminate|].
+        destruct (hi'' <=? 0) eqn:E2; [reflexivity|]. cbn [orb].
+        apply orb_true_iff in Hab. destruct Hab as [E1|Hab]; [rewrite (emp_down _ _ _ _ Hs2 E1) in E2; discriminate|].
         destruct os as [|o0 os].
         * (* the middle Tuple has no slots: the Array element accepts Any *)
           destruct us as [|u0 us]; [exact Hab|]. apply forallb_forall. intros u _. apply asg_any_all. exact Hab.
@@ -312,8 +314,8 @@ Section Coll.
       + (* Tuple <- Tuple <- Tuple *) apply andb_true_iff in Hab. destruct Hab as [Hs1 Hab].
         cbn [LatticeUnfold.recv]. rewrite (size_sub_trans _ _ _ _ _ _ Hs1 Hs2). cbn [andb].
         destruct ts as [|t0 ts]; [reflexivity|]. remember (t0 :: ts) as tl eqn:Etl.
-        destruct (hi'' =? 0) eqn:E2; [reflexivity|]. cbn [orb].
-        apply orb_true_iff in Hab. destruct Hab as [E1|Hab]; [rewrite (emp_down _ _ _ _ Hs2 E1 Hhi'') in E2; discriminate|].
+        destruct (hi'' <=? 0) eqn:E2; [reflexivity|]. cbn [orb].
+        apply orb_true_iff in Hab. destruct Hab as [E1|Hab]; [rewrite (emp_down _ _ _ _ Hs2 E1) in E2; discriminate|].
         assert (Hst : forall t, In t tl -> (tsize t < tsize (TTuple tl g lo hi))%nat /\ gd t).
         { intros t Ht. pose proof (tsize_in _ _ Ht). split; [sz|exact (gd_tuple _ _ _ _ _ Ha Ht)]. }
         destruct os as [|o0 os].
@@ -331,13 +333,13 @@ Section Coll.
              exact (HIH t o u Hs Hg Ho Hs' Hg' Hto Hou).
   Qed.
 
-  Lemma gdr_actual_key ms m : gdr (TStruct ms) -> In m ms -> gdr (actual_key (fst (snd m))).
+  Lemma gd_actual_key ms m : gd (TStruct ms) -> In m ms -> gd (actual_key (fst (snd m))).
   Proof.
-    intros [[Hw _] _] Hin. destruct (wf_struct_member _ _ Hw Hin) as [Hk _]. rewrite (key_ok_actual _ _ Hk). apply gdr_stringval.
+    intros [Hw _] Hin. destruct (wf_struct_member _ _ Hw Hin) as [Hk _]. rewrite (key_ok_actual _ _ Hk). apply gd_stringval.
   Qed.
 
   Lemma core_hash k' v' lo' hi' a c : IHn (tsize a + tsize (THash k' v' lo' hi') + tsize c) ->
-    gd a -> gd (THash k' v' lo' hi') -> gdr c -> rcv a = true ->
+    gd a -> gd (THash k' v' lo' hi') -> gd c -> rcv a = true ->
     recv a (THash k' v' lo' hi') = true -> recv (THash k' v' lo' hi') c = true -> recv a c = true.
   Proof.
     intros IH Ha Hb Hc Ra Hab Hbc. destruct (gd_hash _ _ _ _ Hb) as [Hgk' Hgv'].
@@ -348,20 +350,21 @@ Section Coll.
     - (* Hash *) apply andb_true_iff in Hab. destruct Hab as [Hs1 Hab]. destruct (gd_hash _ _ _ _ Ha) as [Hgk Hgv].
       destruct c as [| | | | | | | | | | | | | | | | | | |k'' v'' lo'' hi''| |ms''| | | | | |]; rsimpl Hbc; try discriminate Hbc;
         apply andb_true_iff in Hbc; destruct Hbc as [Hs2 Hbc]; cbn [LatticeUnfold.recv]; rewrite (size_sub_trans _ _ _ _ _ _ Hs1 Hs2); cbn [andb].
-      + (* Hash <- Hash <- Hash *) destruct (gdr_hash _ _ _ _ Hc) as (Hgk'' & Hgv'' & Hhi'').
-        destruct (hi'' =? 0) eqn:E2; [reflexivity|]. cbn [orb] in Hbc |- *.
-        apply orb_true_iff in Hab. destruct Hab as [E1|Hab]; [rewrite (emp_down _ _ _ _ Hs2 E1 Hhi'') in E2; discriminate|].
+      + (* Hash <- Hash <- Hash *) destruct (gd_hash _ _ _ _ Hc) as (Hgk'' & Hgv'').
+        destruct (hi'' <=? 0) eqn:E2; [reflexivity|]. cbn [orb] in Hbc |- *.
+        apply orb_true_iff in Hab. destruct Hab as [E1|Hab]; [rewrite (emp_down _ _ _ _ Hs2 E1) in E2; discriminate|].
         apply andb_true_iff in Hab, Hbc. destruct Hab as [Hk1 Hv1]. destruct Hbc as [Hk2 Hv2].
         rewrite (IH k k' k'' ltac:(sz) Hgk Hgk' Hgk'' Hk1 Hk2), (IH v v' v'' ltac:(sz) Hgv Hgv' Hgv'' Hv1 Hv2). reflexivity.
       + (* Hash <- Hash <- Struct *) apply orb_true_iff in Hab. destruct Hab as [E1|Hab].
         * (* the middle Hash allows only the empty hash: the Struct has no members *)
-          apply Z.eqb_eq in E1. subst hi'. unfold size_sub in Hs2. apply andb_true_iff in Hs2. destruct Hs2 as [_ Hs2].
-          rewrite (zlen_le0_nil ms'' Hs2). reflexivity.
+          unfold size_sub in Hs2. apply andb_true_iff in Hs2. destruct Hs2 as [_ Hs2].
+          assert (Hz : (zlen ms'' <=? 0) = true) by (apply Z.leb_le in E1, Hs2; apply Z.leb_le; lia).
+          rewrite (zlen_le0_nil ms'' Hz). reflexivity.
         * apply andb_true_iff in Hab. destruct Hab as [Hk1 Hv1]. rewrite forallb_forall in Hbc |- *. intros m Hm.
           specialize (Hbc m Hm). apply andb_true_iff in Hbc. destruct Hbc as [Hk2 Hv2].
           pose proof (tsize_member _ _ Hm) as Hsm. pose proof (tsize_actual_key (fst (snd m))) as Hsk.
-          rewrite (IH k k' (actual_key (fst (snd m))) ltac:(sz) Hgk Hgk' (gdr_actual_key _ _ Hc Hm) Hk1 Hk2).
-          rewrite (IH v v' (snd (snd m)) ltac:(sz) Hgv Hgv' (gdr_struct_v _ _ Hc Hm) Hv1 Hv2). reflexivity.
+          rewrite (IH k k' (actual_key (fst (snd m))) ltac:(sz) Hgk Hgk' (gd_actual_key _ _ Hc Hm) Hk1 Hk2).
+          rewrite (IH v v' (snd (snd m)) ltac:(sz) Hgv Hgv' (gd_struct_v _ _ Hc Hm) Hv1 Hv2). reflexivity.
     (* a Struct on the left: the by-specification rule, disabled (hs = false), is gone by discriminate *)
   Qed.
 
@@ -400,13 +403,13 @@ Section Coll.
   Qed.
 
   Lemma core_struct ms' a c : IHn (tsize a + tsize (TStruct ms') + tsize c) ->
-    gd a -> gd (TStruct ms') -> gdr c -> rcv a = true ->
+    gd a -> gd (TStruct ms') -> gd c -> rcv a = true ->
     recv a (TStruct ms') = true -> recv (TStruct ms') c = true -> recv a c = true.
   Proof.
     intros IH Ha Hb Hc Ra Hab Hbc.
     destruct c as [| | | | | | | | | | | | | | | | | | | | |ms''| | | | | |]; try discriminate Hbc.
-    destruct (struct_sub ms' ms'' Hb (gdr_gd _ Hc) Hbc) as (Hcov2 & Hreq & Hlen).
-    pose proof (wf_struct_names _ (proj1 Hb)) as Hd'. pose proof (wf_struct_names _ (proj1 (gdr_gd _ Hc))) as Hd''.
+    destruct (struct_sub ms' ms'' Hb Hc Hbc) as (Hcov2 & Hreq & Hlen).
+    pose proof (wf_struct_names _ (proj1 Hb)) as Hd'. pose proof (wf_struct_names _ (proj1 Hc)) as Hd''.
     destruct a as [| | | | | | | | | | | | |ci vs|rxs| | |lo hi| |k v lo hi| |ms| | | | | |]; try discriminate; rsimpl Hab; try discriminate Hab.
     - destruct vs; discriminate.
     - destruct rxs; discriminate.
@@ -416,10 +419,10 @@ Section Coll.
       rewrite forallb_forall in Hab |- *. intros m'' Hm''. destruct (Hcov2 m'' Hm'') as (m' & Hm' & He & _ & Hv2).
       specialize (Hab m' Hm'). apply andb_true_iff in Hab. destruct Hab as [Hk1 Hv1].
       destruct (wf_struct_member _ _ (proj1 Hb) Hm') as [Hko' _].
-      destruct (wf_struct_member _ _ (proj1 (gdr_gd _ Hc)) Hm'') as [Hko'' _].
+      destruct (wf_struct_member _ _ (proj1 Hc) Hm'') as [Hko'' _].
       rewrite (key_ok_actual _ _ Hko') in Hk1. rewrite (key_ok_actual _ _ Hko''), <- He, Hk1. cbn [andb].
       pose proof (tsize_member _ _ Hm') as Hs'. pose proof (tsize_member _ _ Hm'') as Hs''.
-      exact (IH v (snd (snd m')) (snd (snd m'')) ltac:(sz) Hgv (gd_struct_v _ _ Hb Hm') (gdr_struct_v _ _ Hc Hm'') Hv1 Hv2).
+      exact (IH v (snd (snd m')) (snd (snd m'')) ltac:(sz) Hgv (gd_struct_v _ _ Hb Hm') (gd_struct_v _ _ Hc Hm'') Hv1 Hv2).
     - (* Struct *) change (recv (TStruct ms) (TStruct ms') = true) in Hab. rewrite recv_struct_struct in Hab |- *. apply andb_true_iff in Hab. destruct Hab as [Hall1 Hcnt1].
       pose proof (wf_struct_names _ (proj1 Ha)) as Hd. rewrite forallb_forall in Hall1.
       rewrite recv_struct_struct in Hbc. apply andb_true_iff in Hbc. destruct Hbc as [Hall2 Hcnt2]. rewrite forallb_forall in Hall2.
@@ -432,8 +435,8 @@ Section Coll.
           rewrite Hf' in Hall1. destruct m' as [n' [k' v']]. cbn [fst snd] in *.
           apply andb_true_iff in Hall1. destruct Hall1 as [Hk1 Hv1].
           pose proof (tsize_member _ _ Hm') as Hs'. pose proof (tsize_member _ _ Ef'') as Hs''. cbn [fst snd] in Hs', Hs''.
-          rewrite (IH (fst (snd m)) k' k'' ltac:(sz) (gd_struct_k _ _ Ha Hm) (gd_struct_k _ _ Hb Hm') (gdr_struct_k _ _ Hc Ef'') Hk1 Hk2).
-          rewrite (IH (snd (snd m)) v' v'' ltac:(sz) (gd_struct_v _ _ Ha Hm) (gd_struct_v _ _ Hb Hm') (gdr_struct_v _ _ Hc Ef'') Hv1 Hv2).
+          rewrite (IH (fst (snd m)) k' k'' ltac:(sz) (gd_struct_k _ _ Ha Hm) (gd_struct_k _ _ Hb Hm') (gd_struct_k _ _ Hc Ef'') Hk1 Hk2).
+          rewrite (IH (snd (snd m)) v' v'' ltac:(sz) (gd_struct_v _ _ Ha Hm) (gd_struct_v _ _ Hb Hm') (gd_struct_v _ _ Hc Ef'') Hv1 Hv2).
           reflexivity.
         * destruct (find_member (fst m) ms') as [[k' v']|] eqn:Ef'; [|exact Hall1].
           apply andb_true_iff in Hall1. destruct Hall1 as [Hk1 _]. apply find_member_some in Ef'.
@@ -445,24 +448,24 @@ Section Coll.
   Qed.
 
   Lemma core_type t' a c : IHn (tsize a + tsize (TType t') + tsize c) ->
-    gd a -> gd (TType t') -> gdr c -> rcv a = true ->
+    gd a -> gd (TType t') -> gd c -> rcv a = true ->
     recv a (TType t') = true -> recv (TType t') c = true -> recv a c = true.
   Proof.
     intros IH Ha Hb Hc Ra Hab Hbc. destruct c; try discriminate Hbc. rsimpl Hbc.
     destruct a; try discriminate; rsimpl Hab; try discriminate Hab.
     - destruct vs; discriminate.
     - destruct rxs; discriminate.
-    - cbn [LatticeUnfold.recv]. exact (IH a t' c ltac:(sz) (gd_type _ Ha) (gd_type _ Hb) (gdr_type _ Hc) Hab Hbc).
+    - cbn [LatticeUnfold.recv]. exact (IH a t' c ltac:(sz) (gd_type _ Ha) (gd_type _ Hb) (gd_type _ Hc) Hab Hbc).
   Qed.
 
   Lemma core_sensitive t' a c : IHn (tsize a + tsize (TSensitive t') + tsize c) ->
-    gd a -> gd (TSensitive t') -> gdr c -> rcv a = true ->
+    gd a -> gd (TSensitive t') -> gd c -> rcv a = true ->
     recv a (TSensitive t') = true -> recv (TSensitive t') c = true -> recv a c = true.
   Proof.
     intros IH Ha Hb Hc Ra Hab Hbc. destruct c; try discriminate Hbc. rsimpl Hbc.
     destruct a; try discriminate; rsimpl Hab; try discriminate Hab.
     - destruct vs; discriminate.
     - destruct rxs; discriminate.
-    - cbn [LatticeUnfold.recv]. exact (IH a t' c ltac:(sz) (gd_sensitive _ Ha) (gd_sensitive _ Hb) (gdr_sensitive _ Hc) Hab Hbc).
+    - cbn [LatticeUnfold.recv]. exact (IH a t' c ltac:(sz) (gd_sensitive _ Ha) (gd_sensitive _ Hb) (gd_sensitive _ Hc) Hab Hbc).
   Qed.
 End Coll.
